@@ -997,3 +997,7 @@ mod tests {
         );
     }
 }
+
+#[cfg(any(kani, verif_replay))]
+#[path = "/verif/kani/tlv_write.rs"]
+pub(crate) mod verif_kani_tlv_write;
